@@ -189,6 +189,17 @@ def run_scenario(rng, chart, spec, cases, stats, chart_key, script=None):
             if op[0] == 'cbits':
                 sc.interp._evaluator._context['c'] = op[1]
                 continue
+            if op[0] == 'carry_on':
+                carry_on = True
+                continue
+            if op[0] == 'swap':
+                if sc.listeners:
+                    lid = op[1] % len(sc.listeners)
+                    kind, was_on = sc.listeners[lid][0], sc.listeners[lid][3]
+                    sc.detach(lid)
+                    if was_on and kind in ('callable', 'rec'):
+                        sc.add_listener(kind)
+                continue
             case = sc.step_case(('queue', Event(op[1], **dict(op[2]))) if op[0] == 'queue' else ('exec',))
             case['chart_key'] = chart_key
             case['scenario'] = sc
@@ -197,7 +208,8 @@ def run_scenario(rng, chart, spec, cases, stats, chart_key, script=None):
             if case['out'][0] == 'err':
                 stats['errors'][case['out'][1][0]] = stats['errors'].get(case['out'][1][0], 0) + 1
                 if case['out'][1][0] in ('EContract', 'EProperty', 'ECode', 'EKey', 'EAssert', 'EOther'):
-                    dead = True
+                    if not (carry_on and case['out'][1][0] in ('EContract', 'ECode')):
+                        dead = True
         return
     for k in range(n):
         r = rng.random()
